@@ -280,3 +280,143 @@ Proof.
   - intros _ l x H. destruct l as [|y l]; [discriminate|]. inversion H. apply fold_best_in.
   - intros _ l Hl. destruct l; [congruence|discriminate].
 Qed.
+
+(* ------------------------------------------------------------------ the repaired model meets the executable spec *)
+
+Lemma str_eqb_rfl a : str_eqb a a = true.
+Proof. now apply str_eqb_eq. Qed.
+
+Lemma list_eqb_refl {A} (f : A -> A -> bool) l : (forall x, In x l -> f x x = true) -> list_eqb f l l = true.
+Proof.
+  induction l as [|x l IH]; intros H; cbn [list_eqb]; [reflexivity|].
+  rewrite (H x (or_introl eq_refl)), IH; [reflexivity|]. intros y Hy. apply H. now right.
+Qed.
+
+Lemma list_eqb_forall2 {A} (R : A -> A -> Prop) (f : A -> A -> bool) l l' :
+  Forall2 R l l' -> (forall x y, R x y -> f x y = true) -> list_eqb f l l' = true.
+Proof.
+  induction 1 as [|x y l l' Hxy Hl IH]; intros Hf; cbn [list_eqb]; [reflexivity|].
+  now rewrite (Hf _ _ Hxy), IH.
+Qed.
+
+Lemma sem_account_eqb_refl a : sem_account_eqb a a = true.
+Proof. unfold sem_account_eqb. rewrite str_eqb_rfl. destruct (snd a); reflexivity. Qed.
+
+Lemma option_eqb_refl {A} (f : A -> A -> bool) o : (forall x, f x x = true) -> option_eqb f o o = true.
+Proof. intros H. destruct o; cbn; auto. Qed.
+
+Lemma sem_accrual_eqb_refl a : sem_accrual_eqb a a = true.
+Proof. unfold sem_accrual_eqb. now rewrite !str_eqb_rfl, sem_account_eqb_refl. Qed.
+
+Lemma sem_booking_eqb_refl b : sem_booking_eqb b b = true.
+Proof. unfold sem_booking_eqb. now rewrite !sem_account_eqb_refl, !str_eqb_rfl. Qed.
+
+Lemma sem_directive_eqb_refl d : sem_directive_eqb d d = true.
+Proof.
+  destruct d; cbn [sem_directive_eqb]; rewrite ?str_eqb_rfl, ?sem_account_eqb_refl; cbn [andb]; try reflexivity.
+  - rewrite (list_eqb_refl sem_booking_eqb) by (intros; apply sem_booking_eqb_refl).
+    rewrite (option_eqb_refl (list_eqb str_eqb)) by (intros; apply list_eqb_refl; intros; apply str_eqb_rfl).
+    rewrite (option_eqb_refl sem_accrual_eqb) by apply sem_accrual_eqb_refl. reflexivity.
+  - apply list_eqb_refl. intros. now rewrite sem_account_eqb_refl, !str_eqb_rfl.
+Qed.
+
+Lemma mem_in x l : mem x l = true <-> In x l.
+Proof.
+  unfold mem. rewrite existsb_exists. split.
+  - intros (y & Hy & E). apply str_eqb_true in E. now subst.
+  - intros H. exists x. split; [assumption|apply str_eqb_rfl].
+Qed.
+
+Lemma offered_iff ph tr x : In x (offered ph tr) <-> In x (candidates ph tr).
+Proof.
+  unfold candidates, trained_accounts, offered. rewrite sort_dedup_in, !in_flat_map.
+  split; intros (d & Hd & Hin); exists d; (split; [assumption|]); destruct d; try exact Hin;
+    unfold update_accounts in *; rewrite in_flat_map in *; destruct Hin as (b & Hb & Hin); exists b;
+    (split; [assumption|]); unfold offered_by_booking in *;
+    destruct (snd (sb_credit b) || snd (sb_debit b)); try exact Hin;
+    destruct (fst (sb_credit b)) as [|c0 c]; destruct (fst (sb_debit b)) as [|d0 d]; cbn [is_nil orb] in *;
+    try exact Hin; try (destruct (str_eqb _ ph || str_eqb _ ph); exact Hin);
+    try (destruct (str_eqb [] ph || str_eqb _ ph); destruct Hin);
+    try (destruct (str_eqb _ ph || str_eqb [] ph); destruct Hin).
+Qed.
+
+Lemma without_nil_all other l : without other l = [] -> forall a, In a l -> a = other.
+Proof.
+  intros H a Ha. destruct (str_eqb a other) eqn:E; [now apply str_eqb_true|].
+  apply str_eqb_false in E. assert (Hi : In a (without other l)) by (apply without_in; auto).
+  rewrite H in Hi. destruct Hi.
+Qed.
+
+Lemma existsb_ne_false off other :
+  (forall a, In a off -> a = other) -> existsb (fun a => negb (str_eqb a other)) off = false.
+Proof.
+  intros H. destruct (existsb _ off) eqn:E; [|reflexivity].
+  apply existsb_exists in E. destruct E as (a & Ha & Hn). rewrite (H a Ha), str_eqb_rfl in Hn. discriminate.
+Qed.
+
+Lemma ne_str_eqb a b : a <> b -> str_eqb a b = false.
+Proof. intros H. destruct (str_eqb a b) eqn:E; [apply str_eqb_true in E; contradiction|reflexivity]. Qed.
+
+Section MeetsSpec.
+Variable ph : str.
+Variable training : list sem_directive.
+Let cands := candidates ph training.
+Let off := offered ph training.
+
+Lemma cands_off a : In a off <-> In a cands.
+Proof. apply offered_iff. Qed.
+
+Lemma booking_ok_of_rel b b' : booking_rel ph Fixed cands b b' -> booking_ok ph off b b' = true.
+Proof.
+  intros (Hq & Hc & Hcr & Hdb). unfold booking_ok. rewrite Hq, Hc, !str_eqb_rfl, !andb_true_r.
+  assert (Hnph : forall x, In x cands -> x <> ph).
+  { intros x Hx E. subst. exact (candidates_not_ph _ _ Hx). }
+  (* the debit side: related with other = the new credit account *)
+  assert (Hd : side_ok ph off (sb_debit b) (sb_debit b') (fst (sb_credit b')) = true).
+  { unfold side_ok. destruct Hdb as [(Hne & Ed)|(Hph & [(y & Ed & Hy & Hyx)|(Hw & Ed)])]; rewrite Ed.
+    - rewrite (ne_str_eqb _ _ Hne). apply sem_account_eqb_refl.
+    - rewrite Hph, str_eqb_rfl. cbn [fst snd negb].
+      rewrite (proj2 (mem_in y off)) by (now apply cands_off). rewrite (ne_str_eqb _ _ Hyx). reflexivity.
+    - rewrite Hph, str_eqb_rfl, sem_account_eqb_refl. cbn [andb].
+      rewrite existsb_ne_false; [now rewrite orb_true_r|].
+      intros a Ha. apply (without_nil_all _ cands Hw). now apply cands_off. }
+  rewrite Hd, andb_true_r.
+  (* the credit side: related with other = the old debit account *)
+  unfold side_ok. destruct Hcr as [(Hne & Ec)|(Hph & [(x & Ec & Hx & Hxd)|(Hw & Ec)])].
+  - rewrite Ec, (ne_str_eqb _ _ Hne). apply sem_account_eqb_refl.
+  - rewrite Hph, str_eqb_rfl.
+    assert (Hxn : x <> fst (sb_debit b')).
+    { rewrite Ec in Hdb. cbn [fst] in Hdb. destruct Hdb as [(_ & Ed)|(Hph' & [(y & Ed & _ & Hyx)|(_ & Ed)])]; rewrite Ed.
+      - exact Hxd.
+      - cbn [fst]. intros E. apply Hyx. now symmetry.
+      - rewrite Hph'. now apply Hnph. }
+    rewrite Ec. cbn [fst snd negb].
+    rewrite (proj2 (mem_in x off)) by (now apply cands_off).
+    rewrite (ne_str_eqb _ _ Hxn). reflexivity.
+  - rewrite Ec, Hph, str_eqb_rfl, sem_account_eqb_refl. cbn [andb].
+    rewrite existsb_ne_false; [now rewrite orb_true_r|].
+    intros a Ha. apply cands_off in Ha. pose proof (without_nil_all _ cands Hw a Ha) as Had.
+    destruct Hdb as [(_ & Ed)|(Hph' & _)]; [rewrite Ed; exact Had|].
+    exfalso. apply (Hnph a Ha). congruence.
+Qed.
+
+Lemma directive_ok_of_rel d d' : directive_rel ph Fixed cands d d' -> directive_ok ph off d d' = true.
+Proof.
+  destruct d; cbn [directive_rel]; try (intros ->; cbn [directive_ok]; apply sem_directive_eqb_refl).
+  destruct d'; try contradiction. intros (-> & -> & -> & -> & Hb). cbn [directive_ok].
+  rewrite !str_eqb_rfl. cbn [andb].
+  rewrite (list_eqb_forall2 _ _ _ _ Hb booking_ok_of_rel).
+  rewrite (option_eqb_refl (list_eqb str_eqb)) by (intros; apply list_eqb_refl; intros; apply str_eqb_rfl).
+  rewrite (option_eqb_refl sem_accrual_eqb) by apply sem_accrual_eqb_refl. reflexivity.
+Qed.
+
+Theorem fixed_meets_spec choose k target out k' :
+  valid_choose choose ->
+  infer_sems ph Fixed choose cands k target = (out, k') -> infer_ok_b ph training target out = true.
+Proof.
+  intros Hch H. unfold infer_ok_b. fold off.
+  apply (list_eqb_forall2 (directive_rel ph Fixed cands)); [|exact directive_ok_of_rel].
+  exact (infer_sems_rel ph Fixed choose Hch cands _ _ _ _ H).
+Qed.
+
+End MeetsSpec.
